@@ -149,24 +149,26 @@ func checkC12(r *Run) {
 
 	// reply delivered only on the found edge of the tag lookup
 	nDeliver := 0
-	eachInstr(owner, func(in ssa.Instruction) {
-		sd, ok := in.(*ssa.Send)
-		if !ok || chanProv(sd.Chan, 0) != "field:fcallRequest.response" {
-			return
-		}
-		nDeliver++
-		okFound := false
-		for _, cd := range condsAtInstr(sd) {
-			nc := normCond(cd)
-			if ex, ok := nc.V.(*ssa.Extract); ok && ex.Index == 1 && nc.Truth {
-				if _, ok := ex.Tuple.(*ssa.Lookup); ok {
-					okFound = true
+	for _, dfn := range tfns {
+		eachInstr(dfn, func(in ssa.Instruction) {
+			sd, ok := in.(*ssa.Send)
+			if !ok || chanProv(sd.Chan, 0) != "field:fcallRequest.response" {
+				return
+			}
+			nDeliver++
+			okFound := false
+			for _, cd := range condsAtInstr(sd) {
+				nc := normCond(cd)
+				if ex, ok := nc.V.(*ssa.Extract); ok && ex.Index == 1 && nc.Truth {
+					if _, ok := ex.Tuple.(*ssa.Lookup); ok {
+						okFound = true
+					}
 				}
 			}
-		}
-		r.Check(okFound, "unknown-tag", "handle: reply delivered only when the tag lookup found a request", sd.Pos(),
-			"a reply with an unknown tag reaches the delivery code (nil request dereference)")
-	})
+			r.Check(okFound, "unknown-tag", "handle: reply delivered only when the tag lookup found a request", sd.Pos(),
+				"a reply with an unknown tag reaches the delivery code (nil request dereference)")
+		})
+	}
 	r.Floor("unknown-tag", nDeliver, 1, "reply delivery site")
 
 	// (3) exit discipline
